@@ -20,6 +20,7 @@ def run(chk, drv):
         W.count_features(chk, b)
         one_batch(chk, drv, b)
         inplace_stage(chk, drv, b)
+        oneof_history_stage(chk, b)
     scalar_sweep(chk, drv)
 
 
@@ -50,6 +51,52 @@ def fill_inplace(m, b, ci, v, rng, top=True):
                 ow = True
         slots.append(raw)
     return "m %d %d - %d%s %d %s" % (ci, int(ow), md.ngroups, " -" * md.ngroups, len(slots), " ".join(slots))
+
+
+def oneof_history_stage(chk, b):
+    """messages whose oneof groups have a HISTORY: a constructor call or a `from_dict` (class form and instance form)
+    that names several members of one group, then a switch to another member by assignment — after each step
+    len / dump / dump(SIZE_DELIMITED) / SerializeToString must describe bytes(m) (oracle only: the value the
+    implementation ends up with is its own business here, C07 settles that)."""
+    rng = chk.rng
+    for ci, md in enumerate(b.schema):
+        groups = [[i for i, f in enumerate(md.fields) if f.group == g] for g in range(md.ngroups)]
+        groups = [g for g in groups if len(g) > 1]
+        if not groups:
+            continue
+        v = bpgen.gen_msg(rng, b.schema, ci, depth=2, multi=1.0)
+        inp = {"schema": b.describe(), "value": bpgen.term(v)}
+        try:
+            m = bpgen.to_py(v, b.classes)
+        except Exception as e:
+            chk.count("oneof_history_skipped_" + type(e).__name__)
+            continue
+        chk.case(b.schema_line() + "|multi|" + bpgen.term(v), True, {"multi_member_constructor": bpgen.term(v)[:200]})
+        chk.count("oneof_history_ctor_multi")
+        oracle(chk, dict(inp, how="constructor naming several members of one oneof"), observe(m))
+        # the same through from_dict: merge the dicts of one-member messages
+        try:
+            d = {}
+            for i in v[2]:
+                d.update(bpgen.to_py(("c", ci, {i: v[2][i]}), b.classes).to_dict())
+            for how, build in (("Cls.from_dict", lambda: b.classes[ci].from_dict(d)), ("Cls().from_dict", lambda: b.classes[ci]().from_dict(d))):
+                m2 = build()
+                chk.count("oneof_history_from_dict_multi")
+                oracle(chk, dict(inp, how=how + " naming several members of one oneof", dict=repr(d)[:400]), observe(m2))
+        except Exception as e:
+            chk.count("oneof_history_from_dict_skipped_" + type(e).__name__)
+        # switch every group to another member by assignment, measuring before and after
+        for g in groups:
+            i = rng.choice(g)
+            f = md.fields[i]
+            try:
+                observe(m)
+                setattr(m, f.name, bpgen.to_py(bpgen.gen_field(rng, b.schema, f, 1), b.classes, f.ty))
+            except Exception as e:
+                chk.count("oneof_history_switch_skipped_" + type(e).__name__)
+                continue
+            chk.count("oneof_history_switched")
+            oracle(chk, dict(inp, how="then %s assigned" % f.name), observe(m))
 
 
 def grow_in_place(m, depth=2):
